@@ -262,7 +262,7 @@ def run(ctx):
                 "session still moves a frame each way afterwards. evaluations = hostile inputs delivered. "
                 "non-trivial/distinct = (session state, generator class, -c, wildcard) combinations that completed with the probe passing.")
     res.assumptions = ["only executed paths are judged; reply-kind coverage is reported", "shift-base UB excluded (GCC defines it)"]
-    n = ctx.pick(160, 4000)
+    n = ctx.pick(400, 30000)
     rng = random.Random(ctx.seed * 6151 + 5)
     plist = []
     for i in range(n):
